@@ -307,7 +307,11 @@ def match_finding(fail: dict, findings: list[dict]):
                 continue
             pat = fd[k]
             val = fail[k]
-            if pat.startswith("*") and len(pat) > 1:
+            if pat.startswith("*") and pat.endswith("*") and len(pat) > 2:
+                if pat[1:-1] not in val:
+                    ok = False
+                    break
+            elif pat.startswith("*") and len(pat) > 1:
                 if not val.endswith(pat[1:]):
                     ok = False
                     break
